@@ -152,6 +152,20 @@ def check(results):
     """results: the dicts of rt.run_roundtrips (side 'impl'). Returns (compared, disagreements, skipped, classes)"""
     by_case = {}
     ref_status = {r["rid"]: r["status"] for r in results if r["side"] == "ref"}
+    ref_out = {r["rid"]: r.get("out") for r in results if r["side"] == "ref"}
+
+    def nested_in_itself(xml):
+        """does some element occur inside an element of the same name (the shape on which yaserde's event loop loses track)"""
+        try:
+            root = ET.fromstring(xml.encode("utf-8"))
+        except ET.ParseError:
+            return False
+
+        def walk(e, seen):
+            if e.tag in seen:
+                return True
+            return any(walk(k, seen | {e.tag}) for k in e)
+        return walk(root, frozenset())
     runtime_limits = 0
     for r in results:
         if r["side"] != "impl" or r["status"] in ("missing-type", "not-run"):
@@ -239,6 +253,12 @@ def check(results):
             mc = canon_from_lines(rep["lines"])
             d = rt.first_diff(canon_local_attrs(b), mc)
             if d:
+                # same shape, milder symptom: the runtime returns a value but has mixed up the nested elements; the hand-written
+                # reference structs come back with the very same document, so this is the runtime's limit, not the generator's
+                rb, reb = rt.infoset(ref_out.get(r["rid"]) or "")
+                if nested_in_itself(r["inst"]["xml"]) and ref_status.get(r["rid"]) == "ok" and reb is None and not rt.first_diff(canon_local_attrs(b), canon_local_attrs(rb)):
+                    runtime_limits += 1
+                    continue
                 dis.append((r, "reserialised infoset: real vs model: " + d))
                 continue
             if rep["fix"] != r["fix"]:
